@@ -63,7 +63,7 @@ func (c *checker) base(p *planned) (map[string]any, []Deviation) {
 		return b, c.single[p.shape]
 	}
 	b := baseline(p.tree)
-	s := singles(p.tree, b)
+	s := p.shape.singlesOf(p.tree, b)
 	c.bases[p.shape] = b
 	c.single[p.shape] = s
 	return b, s
@@ -139,6 +139,19 @@ func slicePairs(s Shape, sg []Deviation) [][]Deviation {
 		for _, d2 := range sg {
 			if !d2.atSibling(s) || (d2.Kind != "null" && d2.Kind != "number-for-string") {
 				continue
+			}
+			fd := s.fieldDepth()
+			if d2.Path[fd] == "k" && d2.Kind == "null" {
+				continue // k is nullable: a null there is no offence
+			}
+			if fd == 2 {
+				// siblings of an EARLIER list element are rendered before d1 in any
+				// case; the k of the same element is kept as the "before" control
+				i1, _ := stepInt(d1.Path[1])
+				i2, _ := stepInt(d2.Path[1])
+				if i2 < i1 {
+					continue
+				}
 			}
 			out = append(out, []Deviation{d1, d2})
 		}
@@ -412,7 +425,7 @@ func TestCheck(t *testing.T) {
 	}
 
 	maxDev := vk.Pick(run, 1, 2)
-	run.Rule("every response shape (12 named types incl. an interface with ONE implementer and a union with ONE member x 14 list/non-null wrappings up to list depth 2 x 5 parent contexts x 2-3 selection variants; the field under test always has a sibling k: String rendered before it and a sibling z: String! rendered after it) is planned by the real planner; for each shape the well-typed baseline payload and every payload with <= max_deviations deviations at pairwise independent positions (every position of the baseline x the whole menu of that position) is rendered by the real Resolvable and judged by R5; the quick tier adds the sibling slice of the two-deviation space: {null, one wrong kind} at every position at or below the field under test x {null, wrong kind} in every instance of k and z; distinct = distinct (number and kind of raises, where each was caught relative to the nearest nullable ancestor, data:null, number of errors, failed clauses)")
+	run.Rule("every response shape (12 named types incl. an interface with ONE implementer and a union with ONE member x 14 list/non-null wrappings up to list depth 2 x 6 parent contexts (root, nullable / non-null object, [Obj], [Obj!]!, and a list of a union whose members are selected through `... on Interface`, which makes postprocess duplicate the field subtree with Node.Copy) x 2-3 selection variants; the field under test always has a sibling k: String rendered before it and z: String! rendered after it) is planned by the real planner; for each shape the well-typed baseline payload and every payload with <= max_deviations deviations at pairwise independent positions (every position of the baseline x the whole menu of that position, which includes the escaping alphabet at every position that renders subgraph text: String, ID, custom scalar, enum, __typename, and - as wrong kind, echoed in the error message - Int, Float, Boolean) is rendered by the real Resolvable and judged by R5; escaping deviations are single deviations in both tiers; the quick tier adds the sibling slice of the two-deviation space; the shapes that select __typename on a concrete object are additionally run with the same real plan stripped of PossibleTypes (what Object.Copy yields) x the string deviations of __typename; distinct = distinct (number and kind of raises, where each was caught relative to the nearest nullable ancestor, data:null, number of errors, failed clauses)")
 	run.Assume(
 		"the single subgraph's `data` is merged unchanged into the response tree (Init(ctx, payload) == what the loader does for one root fetch) - checked, not trusted: every case is also run through Resolver.ResolveGraphQLResponse with an http.RoundTripper subgraph answering {\"data\":payload} and must give byte-identical output or the same panic (counter cross_checked_with_public_path, seam_difference)",
 		"strictness table: custom scalar accepts any JSON; ID string or integer; Float any number; Int any integral number; Boolean, String, enum exact; an @inaccessible enum value is not a value of the client schema",
@@ -420,6 +433,8 @@ func TestCheck(t *testing.T) {
 		"not judged beyond valid JSON / top-level keys (counted as not_judged): Int outside 32 bit, non-integral number for ID",
 		"every error path (also of additional errors) must walk the selected response shape: keys under objects, indices under lists within the subgraph's list length, nothing below a leaf; a trailing __typename is accepted under any object",
 		"an abstract position with exactly one possible type (interface with one implementer, union with one member) needs a __typename naming that type, exactly like one with two possible types",
+		"escaping: the subgraph body is valid JSON with escapes; the response must be strict JSON without duplicate keys and the DECODED value at each position must equal the decoded payload value (or be nulled with an error); subgraph `errors` / `extensions` pass-through is not part of this check",
+		"the public path cross-check runs with a never-matching RenameTypeNames rule, the narrow seam without rules",
 		"no Apollo compatibility flags, no authorizer, no field renderer, no @defer, no aliases, no arguments",
 	)
 	run.Bound("max_deviations", maxDev)
@@ -428,9 +443,10 @@ func TestCheck(t *testing.T) {
 	run.Bound("named_types", namedTypes)
 	run.Bound("parent_contexts", contexts)
 	run.Bound("shapes", len(c.shapes))
+	run.Bound("escaping_alphabet", []string{`a"b`, `a\b`, "a\\n\\t\\rb", "a\\u0001\\u0000\\u001fb", "multi-byte UTF-8 incl. 4-byte, U+2028, <&>", `","k":"x","a":"x",... (looks like JSON structure)`})
 	run.Bound("siblings", "k: String before, z: String! after the field under test")
 	if maxDev < 2 {
-		run.Bound("quick_sibling_slice", "pairs {null, one wrong kind per node kind} at/below the field under test x {null, number-for-string} at every k and z")
+		run.Bound("quick_sibling_slice", "pairs {null, one wrong kind per node kind} at/below the field under test x {null, number-for-string} at z and number-for-string at k, for the siblings of the same and of later list elements")
 	}
 
 	var unit int64
@@ -441,7 +457,7 @@ func TestCheck(t *testing.T) {
 		// the unit layout must be computable without planning
 		tree := s.tree()
 		base := baseline(tree)
-		sg := singles(tree, base)
+		sg := s.singlesOf(tree, base)
 		units := 1
 		if maxDev >= 2 {
 			units += len(sg)
@@ -490,7 +506,7 @@ func TestCheck(t *testing.T) {
 					break
 				}
 				for k := i + 1; k < len(sg); k++ {
-					if !independent(sg[i].Path, sg[k].Path) {
+					if sg[i].singleOnly() || sg[k].singleOnly() || !independent(sg[i].Path, sg[k].Path) {
 						continue
 					}
 					c.runCase(p, Case{Shape: s, Devs: []Deviation{sg[i], sg[k]}})
